@@ -12,5 +12,6 @@ func main() {
 		vlib.Group{Name: "lp-std", Gen: genLPStd},
 		vlib.Group{Name: "lp-family", Gen: genLPFamily},
 		vlib.Group{Name: "lp-convert", Gen: genLPConvert},
+		vlib.Group{Name: "lp-cycling", Gen: genLPCycling}, // keep last: may leave a spinning goroutine behind
 	)
 }
